@@ -391,6 +391,57 @@ def patchVerdict (file : List Char) : Option Bool :=
       else if structBroken (file.length + 1) file [] false false then some false
       else none
 
+/-! ## Applying the accepted operations (`MetricStorage.SendBatch` after `ValidateOperations`)
+
+`SendBatch` splits the operations by `Group == ""`: the ungrouped ones go through `sendBatchV0`
+(add / set / observe with their values, anything else is an error), the grouped ones through
+`applyGroupOperations`, whose loop body has branches for expire, add, the deprecated `Add` pointer, set,
+the deprecated `Set` pointer — and NO branch for anything else: such an operation falls through the
+loop body and leaves nothing behind, without an error. -/
+
+/-- What the storage does with one operation. -/
+inductive Applied
+  | effect   -- a storage call is made (CounterAdd / GaugeSet / HistogramObserve / ExpireGroupMetrics)
+  | error    -- `sendBatchV0` returns an error (the run fails)
+  | nothing  -- `applyGroupOperations`: no branch — the operation is dropped, `SendBatch` returns nil
+  deriving DecidableEq, Repr
+
+/-- The branch `sendBatchV0` (ungrouped) / `applyGroupOperations` (grouped) takes for an operation. -/
+def applyOp (op : MetricOp) : Applied :=
+  let set := "set".toList
+  let add := "add".toList
+  let observe := "observe".toList
+  let expire := "expire".toList
+  if op.group == [] then
+    if op.action == add && op.value then .effect
+    else if op.action == set && op.value then .effect
+    else if op.action == observe && op.value && op.buckets then .effect
+    else .error
+  else
+    if op.action == expire then .effect
+    else if op.action == add && op.value then .effect
+    else if op.add then .effect
+    else if op.action == set && op.value then .effect
+    else if op.set then .effect
+    else .nothing
+
+/-- The variant of the validation in which the two action tables (ungrouped: set / add / observe;
+grouped: expire / set / add) are merged into one switch "set, add, observe are common actions, expire
+needs a group" (sixth wave, witness only). -/
+def validOpMergedTable (op : MetricOp) : Bool :=
+  let a := op.action
+  let set := "set".toList
+  let add := "add".toList
+  let observe := "observe".toList
+  let expire := "expire".toList
+  !( a == []
+    || !(a == set || a == add || a == observe || (a == expire && op.group != []))
+    || (op.name == [] && op.group == [])
+    || (op.name == [] && op.group != [] && a != expire)
+    || ((a == set || a == add || a == observe) && !op.value)
+    || (a == observe && !op.buckets)
+    || (op.set && op.add))
+
 /-- `handleRunHook` returned nil: the process exited with 0, the metrics file was parsed and its
 operations accepted, the patch file was parsed and its operations applied. -/
 def hookOk (exit : Nat) (metrics : List Char) (patchOk : Bool) : Bool :=
